@@ -22,7 +22,8 @@ def parse_air(log):
 
 
 def run_pair(ini_llcp, tgt_llcp, ini_app=None, tgt_app=None, horizon=30.0,
-             fate=None, chooser=None, urandom=None, max_steps=200000):
+             fate=None, chooser=None, urandom=None, max_steps=200000,
+             give_up=None):
     """Run connect(llcp=...) on both sides.
 
     ini_app / tgt_app: f(llc, ctx) called from 'on-connect' (return value is
@@ -38,8 +39,12 @@ def run_pair(ini_llcp, tgt_llcp, ini_app=None, tgt_app=None, horizon=30.0,
     s.quiet = chooser is None
     ctx = dict(stop=False, result={}, error={}, llc={})
 
+    # terminate() turns true at `give_up` (virtual seconds); what is still
+    # running at `horizon` is stuck
+    give_up = horizon - 1.0 if give_up is None else give_up
+
     def terminate():
-        return ctx['stop'] or s.now > 1000.0 + horizon - 1.0
+        return ctx['stop'] or s.now > 1000.0 + give_up
 
     def side(name, options, app):
         def body():
